@@ -21,6 +21,8 @@ inductive J where
   | int (i : Int)
   | flo (tok : String)          -- a float as an opaque token
   | str (s : String)
+  | time (tok : String)         -- a time value (a bag holds one after a time converter fired, or
+                                -- after a Lisp time was stored): an opaque token
   | arr (xs : List J)
   | obj (kvs : List (String × J))
   deriving Repr, Inhabited
@@ -61,6 +63,7 @@ def beq : J → J → Bool
   | int a, int b => a == b
   | flo a, flo b => a == b
   | str a, str b => a == b
+  | time a, time b => a == b
   | arr a, arr b => beqL a b
   | obj a, obj b => beqM a b
   | _, _ => false
